@@ -292,9 +292,9 @@ func (fv *FnV) provable(st *State, goal string) bool {
 	}
 	body.WriteString("(assert (not " + goal + "))\n(check-sat)\n")
 	text := fv.smt.PreludeFor(body.String()) + body.String()
-	os.MkdirAll("/verif/out/cuts", 0o755)
+	os.MkdirAll(outRoot+"/cuts", 0o755)
 	fv.ncut++
-	file := fmt.Sprintf("/verif/out/cuts/%s_%d.smt2", sanitizeFile(fv.instName), fv.ncut)
+	file := fmt.Sprintf(outRoot+"/cuts/%s_%d.smt2", sanitizeFile(fv.instName), fv.ncut)
 	os.WriteFile(file, []byte(text), 0o644)
 	r := runSolver(context.Background(), solvers[0], file, 2, 0)
 	return r.status == "unsat"
